@@ -13,14 +13,19 @@ from vlib.core import sx
 PROP = "C16"
 MODE = "prog"
 STALL = 90.0
-RULE = ("arm lists drawn from pattern families (literal, variable, wildcard, tuple, array head/tail/last/rest, "
-        "enum variant with and without payload; guards in match expressions) in every order (all ordered "
-        "selections of up to 3 arms of each pool, sampled above that in the quick tier), applied to all small "
-        "arguments; recursive definitions (factorial, power, naive and accumulator fibonacci, gcd by remainder "
-        "and by subtraction through a helper, countdown, non-tail sum) over every n up to and one past the "
-        "largest that fits the kind, for the 10 integer kinds; countdown to depth 50000 (thorough: 1000000); "
-        "broadcasting of scalar functions over r x c matrices; wrong arity; no matching arm; non-exhaustive "
-        "enum matches.  non-trivial = distinct case whose expected outcome is a value")
+RULE = ("arm lists drawn from pattern pools (literal, variable, wildcard, tuple with literal / repeated-variable / wildcard "
+        "elements, array [x] [h|t] [h ...] [... l] [a ... b] [a, b | r] [* ... t] [* ... m l] [] and literal heads, enum "
+        "variants with and without payload; guards in match expressions, also on the wildcard arm) in every order: all "
+        "ordered selections of 1..3 arms of each pool (fn-enum, match-enum: 1..4), the wildcard arm inserted at every "
+        "position of match expressions (thorough tier: all of them, ~68000 cases; quick tier: all 1-arm and a seeded sample "
+        "of the 2-4-arm lists), each applied to all small arguments (integers 0..3, pairs over 0..2, 9 vectors of length "
+        "1..4, the 6 enum values, both bools), kinds rotating over the 10 integer kinds; recursive definitions: factorial "
+        "for EVERY n up to one past the largest that fits, for all 10 kinds; power (bases 0,1,2,3,10, exponents incl. the "
+        "largest that fits and one more), naive fibonacci (n <= 17 or first overflow), accumulator fibonacci up to the first "
+        "overflow, gcd by remainder (boundary, Fibonacci-worst-case and random pairs), gcd by subtraction through a helper "
+        "(mutual recursion), countdown to 50000 (thorough: 1000000), non-tail sum up to depth 1000; broadcasting of scalar "
+        "functions over 6 matrix shapes (total, partial, kind-changing, recursive, bool); wrong arity 0..4 against 1..3 "
+        "parameters; missing function.  non-trivial = distinct case whose specified outcome is a value")
 ASSUMPTIONS = [
     "arguments and literals are typed literals of exactly the declared kinds, so no implicit conversion takes part "
     "(a literal pattern of another kind than the argument, e.g. `0` against a u8, is outside the family)",
@@ -219,7 +224,7 @@ def stream_fn1(tier, rng, kinds):
                 arm(PV("m"), None, op("mul", var("m"), num(k, 2)))]
     lists = list(ordered_subsets(list(range(6)), 3)) + [list(p) for p in itertools.permutations([0, 1, 2, 3])]
     if tier == "quick":
-        lists = [l for l in lists if len(l) <= 2] + pick(rng, [l for l in lists if len(l) > 2], 35)
+        lists = [l for l in lists if len(l) <= 2] + pick(rng, [l for l in lists if len(l) > 2], 20)
     for l in lists:
         k = kinds.next()
         arms = [pool(k)[i] for i in l]
@@ -239,8 +244,8 @@ def stream_fn2(tier, rng, kinds):
                 arm(PT(PL(I(k, 1)), WILD), None, num(k, 70))]
     lists = list(ordered_subsets(list(range(7)), 3))
     if tier == "quick":
-        lists = [l for l in lists if len(l) == 1] + pick(rng, [l for l in lists if len(l) == 2], 30) + \
-                pick(rng, [l for l in lists if len(l) > 2], 30)
+        lists = [l for l in lists if len(l) == 1] + pick(rng, [l for l in lists if len(l) == 2], 22) + \
+                pick(rng, [l for l in lists if len(l) > 2], 25)
     for l in lists:
         k = kinds.next()
         arms = [pool(k)[i] for i in l]
@@ -415,7 +420,7 @@ def stream_match_arr(tier, rng, kinds):
                              (PA([], ANY, [PV("l")]), var("l")),
                              (PA([WILD], BIND(PV("m")), [PV("l")]), tup(var("m"), var("l"))),
                              (PA([PV("a"), PV("b")], BIND(PV("r")), []), tup(var("a"), var("b"), var("r")))):
-                if tier == "quick" and rng.random() < 0.75:
+                if tier == "quick" and rng.random() < 0.85:
                     continue
                 yield make_case(dict(stream="match-arr-parts", kind=k, narms=2), [],
                                 match(var("xs"), [arm(pt, None, body), arm(WILD, None, num(k, 7))]),
@@ -448,7 +453,7 @@ def stream_match_enum(tier, rng, kinds):
             yield l
     ls = list(gen())
     if tier == "quick":
-        ls = pick(rng, ls, 130)
+        ls = pick(rng, ls, 100)
     for l in ls:
         k = kinds.next()
         p = pool(k)
@@ -539,8 +544,11 @@ def lit_ok(z):
 
 def stream_recursion(tier, rng, kinds):
     import math
-    for k in INT_KINDS:
+    for ki, k in enumerate(INT_KINDS):
         hi = kmax(k)
+        # quick tier: factorial and countdown for every kind, the rest for alternating halves of the kinds
+        half_a = tier != "quick" or ki % 2 == 0
+        half_b = tier != "quick" or ki % 2 == 1
         # factorial: every n up to one past the largest that fits
         n = 0
         while True:
@@ -549,7 +557,7 @@ def stream_recursion(tier, rng, kinds):
                 break
             n += 1
         # power
-        for x in ((0, 1, 2, 3, 10) if tier != "quick" else (0, 1, 2, 3)):
+        for x in () if not half_a else ((0, 1, 2, 3, 10) if tier != "quick" else (0, 1, 2, 3)):
             if x > hi:
                 continue
             es = {0, 1, 2, 5}
@@ -566,7 +574,7 @@ def stream_recursion(tier, rng, kinds):
                                     fuel=40 * e + 400)
         # naive fibonacci
         a, b, n = 0, 1, 0
-        while n <= 17:
+        while n <= 17 and half_b:
             yield make_case(dict(stream="rec-fib", kind=k), [d_fib(k)], call("fib", num(k, n)), fuel=40 * n + 400)
             if a > hi:
                 break
@@ -579,7 +587,7 @@ def stream_recursion(tier, rng, kinds):
             a, b, n = b, a + b, n + 1
         sel = sorted(set(ns[:6] + ns[-4:] + [ns[-1] + 1] + ns[::11])) if tier == "quick" else ns + [ns[-1] + 1]
         for n in sel:
-            if n <= hi:
+            if n <= hi and half_a:
                 yield make_case(dict(stream="rec-fibacc", kind=k), d_fibacc(k), call("fibt", num(k, n)), fuel=n + 400)
         # gcd by remainder (tail recursion)
         top = min(hi, 2 ** 53 - 1)
@@ -593,11 +601,11 @@ def stream_recursion(tier, rng, kinds):
             pairs.append((rng.randint(0, top), rng.randint(0, top)))
             pairs.append((rng.randint(0, min(top, 200)), rng.randint(0, min(top, 200))))
         for (a, b) in pairs:
-            if a <= hi and b <= hi:
+            if a <= hi and b <= hi and half_b:
                 yield make_case(dict(stream="rec-gcd", kind=k), [d_gcd(k)], call("gcd", num(k, a), num(k, b)), fuel=2000)
         # gcd by subtraction through a helper (mutual, not a self tail call: the depth grows)
         for (a, b) in [(0, 0), (4, 6), (6, 4), (9, 3), (7, 7), (12, 18), (1, 20), (25, 10), (1, 70), (90, 1)]:
-            if a <= hi and b <= hi:
+            if a <= hi and b <= hi and half_a:
                 yield make_case(dict(stream="rec-gcdsub", kind=k), d_gcdsub(k), call("gs", num(k, a), num(k, b)), fuel=4000)
         # countdown (tail recursion of any depth)
         ns = {0, 1, 2, 10, 100, 255, 1000, min(hi, 50000)}
@@ -612,13 +620,13 @@ def stream_recursion(tier, rng, kinds):
         # non-tail sum: the depth of the native stack
         for n in (0, 1, 10, 40, 60, 100, 120, 200, 1000):
             if n * (n + 1) // 2 <= hi or n == 10:
-                if n <= hi:
+                if n <= hi and half_b:
                     yield make_case(dict(stream="rec-sum", kind=k, depth=n), [d_sum(k)], call("sumto", num(k, n)),
                                     fuel=10 * n + 400)
 
 def stream_broadcast(tier, rng, kinds):
     shapes = [(1, 1), (1, 3), (3, 1), (2, 2), (2, 3), (3, 2)]
-    for k in INT_KINDS:
+    for k in (INT_KINDS if tier != "quick" else INT_KINDS[1::2]):
         inc = fn("inc", [("x", kint(k))], kint(k),
                  [arm(PL(I(k, 1)), None, num(k, 10)), arm(PV("n"), None, op("add", var("n"), num(k, 1)))])
         part = fn("part", [("x", kint(k))], kint(k),
